@@ -591,6 +591,9 @@ func TestC14Stalled(t *testing.T) {
 		nBroadcasts := rapid.IntRange(2, 6).Draw(rt, "queuedPerStalledClient")
 		big := rapid.SampledFrom([]int{10, 5000, 40000}).Draw(rt, "broadcastSize")
 		kinds := rapid.SliceOfN(rapid.SampledFrom([]int{hlref.TranKeepAlive, hlref.TranGetUserNameList, hlref.TranGetMsgs, hlref.TranGetFileNameList}), 4, 12).Draw(rt, "requests")
+		// now and then an active client talks a lot while the others do not read: thousands of chat lines pile up for each
+		// of the stalled ones
+		flood := rapid.SampledFrom([]int{0, 0, 4200, 0, 6000, 0}).Draw(rt, "chatLinesWhileStalled")
 		inWorld(rt, hlsim.Options{Agreement: "a", Board: strings.Repeat("b", 3000), Accounts: []hlsim.AccountSpec{acct("admin", "Admin", "adminpw", allAccess)}}, func(rt *rapid.T, w *hlsim.World) {
 			var cs []*hlsim.Conn
 			for i := 0; i < n; i++ {
@@ -609,11 +612,17 @@ func TestC14Stalled(t *testing.T) {
 					rt.Fatalf("with %d of %d clients not reading and %d broadcasts queued for them: the broadcast request of an active client got no reply", nStalled, n, b)
 				}
 			}
+			for i := 0; i < flood; i++ {
+				active[0].SendAsync(hlref.Tran{Type: hlref.TranChatSend, ID: active[0].NewID(), Fields: []hlref.Field{sfld(hlref.FData, fmt.Sprintf("line %d", i))}}.Encode())
+			}
+			if flood > 0 {
+				settle(time.Second)
+			}
 			for k, typ := range kinds {
 				c := active[k%len(active)]
 				r := c.Request(typ)
 				if r == nil || r.IsReply != 1 {
-					rt.Fatalf("with %d of %d clients not reading (%d transactions of %d bytes queued for each): request %d (type %d) of an active client got no reply", nStalled, n, nBroadcasts, big, k, typ)
+					rt.Fatalf("with %d of %d clients not reading (%d transactions of %d bytes and %d chat lines queued for each): request %d (type %d) of an active client got no reply", nStalled, n, nBroadcasts, big, flood, k, typ)
 				}
 			}
 			for i, c := range active {
